@@ -31,14 +31,14 @@ def shippedPP : PP Float :=
     uniMul := Gen.Pipeline.unicodeMultiplier, resMul := Gen.Pipeline.residueMultiplier,
     micro := microF, ofInt := ofIntF }
 
-/-- `het|name|elem|resName|chain|resNum|icode|terminal|x|y|z` -/
+/-- `het|name|elem|resName|chain|resNum|icode|terminal|x|y|z|registered` -/
 def parseIn (s : String) : Option (PAtom Float) :=
   match s.splitOn "|" with
-  | [h, n, e, r, c, num, ic, t, x, y, z] =>
+  | [h, n, e, r, c, num, ic, t, x, y, z, rg] =>
     match intOf num, ofBits? x, ofBits? y, ofBits? z with
     | some num, some x, some y, some z =>
       let d : PAtom Float := PAtom.dflt
-      some { d with het := h == "1", name := unhexS n, elem := unhexS e, resName := unhexS r, chain := unhexS c, resNum := num, icode := unhexS ic, terminal := unhexS t, pos := ⟨x, y, z⟩, live := true }
+      some { d with reg := rg == "1", het := h == "1", name := unhexS n, elem := unhexS e, resName := unhexS r, chain := unhexS c, resNum := num, icode := unhexS ic, terminal := unhexS t, pos := ⟨x, y, z⟩, live := true }
     | _, _, _, _ => none
   | _ => none
 
@@ -96,7 +96,8 @@ def handle (args : List String) : String :=
     | some atoms => some (prepare shippedPP (optsOf pa to) atoms.toArray)
   let showPrep (r : Prepared Float) : String :=
     (if r.atoms.isEmpty then "-" else ";".intercalate (r.atoms.toList.map showAtom)) ++ "#" ++
-    (if r.groups.isEmpty then "-" else ";".intercalate (r.groups.toList.map (showGroup r.atoms)))
+    (if r.groups.isEmpty then "-" else ";".intercalate (r.groups.toList.map (showGroup r.atoms))) ++ "~" ++
+    ",".intercalate (r.chains.map tohexS)
   match args with
   | ["prep", pa, to, as] =>
     match run pa to as with
@@ -108,7 +109,7 @@ def handle (args : List String) : String :=
     | none => "bad-op"
     | some none => "valueerror"
     | some (some r) => showPrep r ++ "#" ++ scoreOf rp r
-  | ["pdb", rp, pa, to, keep, chains, ign, file] =>
+  | ["pdb", rp, pa, to, keep, chains, ign, gw, file] =>
     -- the whole program on a PDB text: `<name>@<atoms>#<groups>#<records>` per conformation, `&`-separated
     let lines := if file == "-" then [] else (file.splitOn ",").map (fun h => unhex h.toList)
     let po : Pdb.Opts := { ignore := if ign == "default" then Gen.Cfg.f_ignore_residues else Pdb.csvHex ign,
@@ -127,11 +128,15 @@ def handle (args : List String) : String :=
           | some gs => if gs.isEmpty then "-" else ";".intercalate (gs.map fun g =>
               "|".intercalate [tohexS g.label, tohexS g.type, fbits g.acc.pka, fbits g.nv, fbits g.acc.evol, fbits g.acc.eloc, fbits g.buried,
                 showD g.acc.sc, showD g.acc.bb, showD g.acc.cb])
-        let sections := match Program.averageRun shippedCP confs, Pdb.parse po lines with
-          | some gs, .ok recs =>
-            tohexS (Output.determinantRows removePen Gen.Cfg.f_write_out_order (Output.chainsOf (recs.map Program.core)) gs) ++ "#" ++
-            tohexS (Output.summaryRows removePen Gen.Cfg.f_write_out_order gs)
-          | _, _ => "-#-"
+        -- grid and window of the options: six bit patterns
+        let gwv := (gw.splitOn ",").filterMap ofBits?
+        let sections := match Program.averageRun shippedCP confs, Pdb.parse po lines, gwv with
+          | some gs, .ok recs, [g0, g1, g2, w0, w1, w2] =>
+            tohexS (Output.determinantRows removePen Gen.Cfg.f_write_out_order (Output.chainsOf confs) gs) ++ "#" ++
+            tohexS (Output.summaryRows removePen Gen.Cfg.f_write_out_order gs) ++ "#" ++
+            tohexS (Output.foldingSection Gen.Consts.group_UNK_PKA_SCALINGF (g0, g1, g2) (w0, w1, w2) gs) ++ "#" ++
+            tohexS (Output.chargeSection (g0, g1, g2) gs)
+          | _, _, _ => "-#-"
         "&".intercalate ((confs.map fun c => match c.2 with
           | none => c.1 ++ "@valueerror"
           | some (r, out) => c.1 ++ "@" ++ showPrep r ++ "#" ++ (if out.isEmpty then "-" else ";".intercalate (out.map showOut))) ++ ["AVR@" ++ avr, "TXT@" ++ sections])
